@@ -716,6 +716,12 @@ func display(computer *ComputedStyle, _ pr.KnownProp, _value pr.CssProperty) pr.
 		inner := p.GetDisplay()[1]
 		isItem = inner == "flex" || inner == "grid"
 	}
+	if position.Bool && value[1] == "" && value[2] == "" && strings.HasPrefix(value[0], "table-") {
+		// A running element (position: running()) is taken out of the flow by layout: it can not be a
+		// part of a table (anonymous table boxes would be built around a box that is not laid out
+		// there, and the table passes skip its content). Blockified as in CSS 2.1 §9.7.
+		return pr.Display{"block", "flow"}
+	}
 	if (!position.Bool && (position.String == "absolute" || position.String == "fixed")) || float_ != "none" || computer.isRootElement() || isItem {
 		if d := value[0]; value[1] == "" && value[2] == "" && strings.HasPrefix(d, "table-") {
 			return pr.Display{"block", "flow"}
